@@ -4,7 +4,13 @@ or hit singular inputs, and the two registry events)."""
 
 from __future__ import annotations
 
+import decimal
+import hashlib
+import locale
+import os
 import pickle
+import random
+import sys
 import warnings
 
 import numpy as np
@@ -32,6 +38,16 @@ def snapshot():
         "awkward.behavior": tuple(sorted((repr(k), id(v)) for k, v in ak.behavior.items())),
         "vector.behavior": tuple(sorted((repr(k), id(v)) for k, v in vba.behavior.items())),
         "vector._awkward_registered": vector._awkward_registered,
+        "sys.recursionlimit": sys.getrecursionlimit(),
+        "sys.switchinterval": sys.getswitchinterval(),
+        "warnings.showwarning": id(warnings.showwarning),
+        "warnings.defaultaction": getattr(warnings, "defaultaction", None),
+        "random.state": hash(random.getstate()),
+        "numpy.random.state": hashlib.sha1(np.random.get_state()[1].tobytes()).hexdigest()[:12] + f":{np.random.get_state()[2]}",
+        "os.environ": hash(frozenset(os.environ.items())),
+        "sys.path": tuple(sys.path),
+        "decimal.context": repr(decimal.getcontext()),
+        "float.repr/locale": locale.setlocale(locale.LC_NUMERIC),
     }
 
 
